@@ -55,6 +55,8 @@ pub struct Game {
     /// the game keeps its snapshots itself and hands GGRS only the checksum: cell.save(frame, None, Some(cs))
     pub own_snapshots: bool,
     pub own: BTreeMap<i32, St>,
+    /// save without a checksum
+    pub no_checksum: bool,
 }
 
 pub fn checksum_of(hash: u64) -> u128 {
@@ -83,6 +85,7 @@ impl Game {
             keep_all: true,
             own_snapshots: false,
             own: BTreeMap::new(),
+            no_checksum: false,
         }
     }
 
@@ -140,9 +143,9 @@ impl Game {
                             let k = *self.own.keys().next().unwrap();
                             self.own.remove(&k);
                         }
-                        cell.save(frame, None, Some(cs));
+                        cell.save(frame, None, if self.no_checksum { None } else { Some(cs) });
                     } else {
-                        cell.save(frame, Some(self.st.clone()), Some(cs));
+                        cell.save(frame, Some(self.st.clone()), if self.no_checksum { None } else { Some(cs) });
                     }
                 }
                 GgrsRequest::LoadGameState { cell, frame } => {
